@@ -20,13 +20,14 @@ merge(FN, whole_object_ops('atomic_guarded', 'G(self)', GSET))
 for _k in list(FN):
     for _e in (FN[_k] if isinstance(FN[_k], list) else [FN[_k]]):
         _e['props'] = 'C15 C20'
-PRE = 'G(self) && FREE(self->m_mutex) && vf_held == 0 && !vf_exc && ' + R3
+PRE = 'G(self) && FREE(self->m_mutex) && vf_held == 0 && !vf_exc && !vf_user_threw && ' + R3
 FN[r'atomic_guarded::exchange'] = dict(
     props='C15 C20', setup=GSET,
     requires=[PRE + ' && newValue != &self->m_obj && newValue->life == VF_LIVE && newValue->guard == 0 && vf_ret != newValue && vf_ret != &self->m_obj'],
     ensures=[('C15 C20', one_cs(False), 'exactly one critical section; released on normal and exceptional exit'),
              ('C15', '!vf_exc ==> (vf_ret->v == vf_cs_entry_v && vf_ret->life == VF_LIVE)', 'exchange returns the value it replaced'),
              ('C15', '!vf_exc ==> self->m_obj.v == __CPROVER_old(newValue->v)', 'and installs the new value'),
+             ('C20', 'vf_user_threw == (vf_exc != 0)', 'an exception thrown by user code propagates; nothing else throws'),
              ('C15 C20', 'G(self)', 'wrapper invariant'), ('', G3, 'counters')],
     assigns='*vf_ret, *newValue, self->m_mutex, self->m_obj.v, self->m_obj.torn, ' + GHOST_ASSIGNS)
 FN[r'atomic_guarded::compare_exchange'] = dict(
@@ -37,5 +38,6 @@ FN[r'atomic_guarded::compare_exchange'] = dict(
               'succeeds exactly when the current value equals the expected one, and then installs the desired value'),
              ('C15', '(!vf_exc && !__CPROVER_return_value) ==> (vf_cs_entry_v != __CPROVER_old(expected->v) && expected->v == vf_cs_entry_v && self->m_obj.v == vf_cs_entry_v)',
               'otherwise reports the current value in `expected` and leaves the object unchanged'),
+             ('C20', 'vf_user_threw == (vf_exc != 0)', 'an exception thrown by user code propagates; nothing else throws'),
              ('C15 C20', 'G(self)', 'wrapper invariant'), ('', G3, 'counters')],
     assigns='*expected, desired->v, desired->torn, self->m_mutex, self->m_obj.v, self->m_obj.torn, ' + GHOST_ASSIGNS)
